@@ -3,6 +3,7 @@ package main
 import (
 	"bufio"
 	"bytes"
+	"encoding/binary"
 	"encoding/json"
 	"fmt"
 	"io/ioutil"
@@ -129,6 +130,23 @@ func (w *c13World) applyPar2(d c13Desc, rng *rand.Rand) (map[string][]byte, erro
 		return p
 	}
 	switch d.Kind {
+	case "lenswallow":
+		// the length field of packet Pkt grows by the length of the packet behind it: still a multiple of 4, still
+		// inside the file - a reader that trusts it and skips ahead loses the intact packet that follows
+		p := pk(d.File)
+		if d.Pkt >= 1 && d.Pkt < len(p) {
+			q, nx := p[d.Pkt-1], p[d.Pkt]
+			binary.LittleEndian.PutUint64(out[d.File][q.Off+8:], q.Len+nx.Len)
+		}
+	case "magiclen":
+		// sixteen bytes inside a packet body are overwritten with the packet magic followed by an extreme length:
+		// garbage that LOOKS like the start of a packet to a reader that searches for the magic
+		b := out[d.File]
+		if d.Off >= 64 && d.Off+80 <= len(b) {
+			copy(b[d.Off:], refpar2.Magic)
+			lens := []uint64{0x7ffffffffffffffc, 1 << 63, 1<<63 - 4, ^uint64(0) - 3, uint64(len(b)-d.Off) + 4, 64, 1 << 32, 0x7ffffffffffffff0}
+			binary.LittleEndian.PutUint64(b[d.Off+8:], lens[d.Mask%len(lens)])
+		}
 	case "flip":
 		p := pk(d.File)
 		if d.Pkt < 1 || d.Pkt > len(p) {
@@ -589,6 +607,22 @@ func runC13(args []string) error {
 		for k := 0; k < nfuzz; k++ {
 			cases = append(cases, c13Desc{Fmt: "par2", Kind: "bytes", File: f, Off: rng.Intn(len(b)), Mask: 1 << uint(rng.Intn(8)), Data: []string{"none", "one"}[k%2]})
 			cases = append(cases, c13Desc{Fmt: "par2", Kind: "cut", File: f, Off: rng.Intn(len(b)), Data: []string{"none", "one"}[k%2]})
+		}
+	}
+	// PAR2: length fields that swallow the next packet; garbage that looks like a packet start (magic + extreme length)
+	for _, f := range []string{"index", "vol1", "vol2"} {
+		b := p2[f]
+		pkts, _ := refpar2.Tokenize(b)
+		for k := 1; k < len(pkts); k++ {
+			cases = append(cases, c13Desc{Fmt: "par2", Kind: "lenswallow", File: f, Pkt: k, Data: []string{"none", "one"}[k%2]})
+		}
+		for m := 0; m < 8; m++ {
+			for _, q := range pkts {
+				if int(q.Len) >= 64+96 && (m+q.Off/4)%3 == 0 {
+					cases = append(cases, c13Desc{Fmt: "par2", Kind: "magiclen", File: f, Off: q.Off + 64 + 4*(m%4), Mask: m, Data: []string{"none", "one"}[m%2]})
+				}
+			}
+			cases = append(cases, c13Desc{Fmt: "par2", Kind: "magiclen", File: f, Off: 64 + rng.Intn(len(b)-160), Mask: m, Data: "one"})
 		}
 	}
 	casesPath := c.out + ".cases"
